@@ -135,7 +135,9 @@ Section CCParse.
                   | Some (EscLit l, r4) => Some (l, r4)
                   | _ => None
                   end
-                else if mem_cp e [91; 93; 94; 45; 38; 126]%N then None
+                else if mem_cp e [91; 93; 94; 45]%N then None
+                else if mem_cp e [38; 126]%N then
+                  (match r3 with d :: _ => if N.eqb d e then None else Some (e, r3) | [] => Some (e, r3) end)
                 else Some (e, r3) in
               match hi_item with
               | Some (hi, r4) =>
@@ -197,15 +199,23 @@ Section CCParse.
     apply N.leb_le in Hle. rewrite Hle. reflexivity.
   Qed.
 
+  (* the upper end of a range may be a raw & or ~ unless the same character follows *)
   Lemma cls_cont_range_raw : forall f lo hi r acc,
-    mem_cp hi [92; 91; 93; 94; 45; 38; 126]%N = false -> (lo <= hi)%N ->
+    mem_cp hi [92; 91; 93; 94; 45]%N = false ->
+    (mem_cp hi [38; 126]%N = true -> match r with d :: _ => d <> hi | [] => True end) ->
+    (lo <= hi)%N ->
     cls_cont f lo (45%N :: hi :: r) acc = parse_class_items is_ws f false r ((lo, hi) :: acc).
   Proof.
-    intros f lo hi r acc Hm Hle. unfold cls_cont.
+    intros f lo hi r acc Hm Hamp Hle. unfold cls_cont.
     change (N.eqb 45 45) with true. cbn iota.
     cbn [mem_cp] in Hm. apply orb_false_elim in Hm. destruct Hm as [H92 Hm].
-    rewrite H92. cbn [mem_cp]. rewrite Hm.
-    apply N.leb_le in Hle. rewrite Hle. reflexivity.
+    rewrite H92. change (mem_cp hi [91; 93; 94; 45]%N) with
+      (N.eqb hi 91 || (N.eqb hi 93 || (N.eqb hi 94 || (N.eqb hi 45 || false)))).
+    rewrite Hm. apply N.leb_le in Hle.
+    destruct (mem_cp hi [38; 126]%N) eqn:E; [|rewrite Hle; reflexivity].
+    specialize (Hamp eq_refl). destruct r as [|d r]; [rewrite Hle; reflexivity|].
+    replace (N.eqb d hi) with false by (symmetry; apply N.eqb_neq; exact Hamp).
+    rewrite Hle. reflexivity.
   Qed.
 
   (* the shape of a printed class member *)
@@ -277,21 +287,21 @@ Section CCParse.
 
   (* one range *)
   Lemma pcls_range : forall a b s acc res,
-    (a <= b)%N -> b <> 38%N -> b <> 126%N ->
+    (a <= b)%N ->
+    (mem_cp b [38; 126]%N = true -> match s with d :: _ => d <> b | [] => True end) ->
     pcls s ((a, b) :: acc) res ->
     pcls (vf (cc_escape a) ++ 45%N :: vf (cc_escape b) ++ s) acc res.
   Proof.
-    intros a b s acc res Hab H38 H126 H f Hf.
+    intros a b s acc res Hab Hnext H f Hf.
     assert (Hhi : forall f' lo acc', (lo <= b)%N -> length s < f' ->
               cls_cont f' lo (45%N :: vf (cc_escape b) ++ s) acc'
               = parse_class_items is_ws f' false s ((lo, b) :: acc')).
     { intros f' lo acc' Hlo Hf'. destruct (cc_form b) as [z Hz|Hm H11 H12].
       - cbn [app]. apply cls_cont_range_bs; [apply Hz|exact Hlo].
-      - cbn [app]. apply cls_cont_range_raw; [|exact Hlo].
+      - cbn [app]. apply cls_cont_range_raw; [|exact Hnext|exact Hlo].
         pose proof (cc_raw_not_special b Hm) as Hsp.
         unfold cls_special in Hsp. cbn [mem_cp] in Hsp |- *.
         repeat (apply orb_false_elim in Hsp; destruct Hsp as [? Hsp]).
-        apply N.eqb_neq in H38, H126.
         repeat match goal with X : N.eqb b _ = false |- _ => rewrite X; clear X end.
         reflexivity. }
     destruct (cc_form a) as [z Hz|Hm H11 H12].
@@ -317,7 +327,7 @@ Section CCParse.
     | e :: es' =>
         match e with
         | CS x => match es' with e' :: _ => entry_first e' <> x | [] => True end
-        | CR a b => (a <= b)%N /\ b <> 38%N /\ b <> 126%N
+        | CR a b => (a <= b)%N /\ match es' with e' :: _ => entry_first e' <> b | [] => True end
         end /\ entries_ok es'
     end.
 
@@ -340,25 +350,27 @@ Section CCParse.
     cbn [flat_map]. rewrite vf_app, <- app_assoc.
     assert (Hrest : pcls (vf (flat_map entry_str es) ++ 93%N :: r) (entry_item e :: acc) res).
     { apply IH; [exact Hok|]. cbn [map rev] in H. rewrite <- app_assoc in H. exact H. }
-    destruct e as [x|a b]; cbn [entry_str entry_item] in *.
-    - (* what follows the single member *)
-      assert (Hnext : exists d s', vf (flat_map entry_str es) ++ 93%N :: r = d :: s'
+    (* what follows the member: never the same character again *)
+    assert (Hnext : forall x, match es with e' :: _ => entry_first e' <> x | [] => True end ->
+                     exists d s', vf (flat_map entry_str es) ++ 93%N :: r = d :: s'
                        /\ d <> 45%N /\ (mem_cp x [38; 126]%N = true -> d <> x)).
-      { destruct es as [|e' es'].
-        - exists 93%N, r. split; [reflexivity|]. split; [discriminate|].
-          intros Hx. cbn [mem_cp] in Hx. intros <-. discriminate Hx.
-        - cbn [flat_map]. rewrite vf_app, <- app_assoc.
-          destruct (entry_str_first e' (vf (flat_map entry_str es') ++ 93%N :: r))
-            as (d & s' & E & H1 & H2).
-          exists d, s'. split; [exact E|]. split; [exact H1|].
-          intros Hx. destruct H2 as [->| ->]; [|exact He].
-          intros <-. cbn [mem_cp] in Hx. discriminate Hx. }
-      destruct Hnext as (d & s' & E & Hd & Hamp). rewrite E in *.
+    { intros x Hx0. destruct es as [|e' es'].
+      - exists 93%N, r. split; [reflexivity|]. split; [discriminate|].
+        intros Hx. cbn [mem_cp] in Hx. intros <-. discriminate Hx.
+      - cbn [flat_map]. rewrite vf_app, <- app_assoc.
+        destruct (entry_str_first e' (vf (flat_map entry_str es') ++ 93%N :: r))
+          as (d & s' & E & H1 & H2).
+        exists d, s'. split; [exact E|]. split; [exact H1|].
+        intros Hx. destruct H2 as [->| ->]; [|exact Hx0].
+        intros <-. cbn [mem_cp] in Hx. discriminate Hx. }
+    destruct e as [x|a b]; cbn [entry_str entry_item] in *.
+    - destruct (Hnext x He) as (d & s' & E & Hd & Hamp). rewrite E in *.
       apply pcls_single; assumption.
-    - destruct He as (Hab & H38 & H126).
-      rewrite vf_app. change (vf ([45%N] ++ cc_escape b)) with (vf ([45%N] ++ cc_escape b)).
-      rewrite vf_app. change (vf [45%N]) with [45%N]. rewrite <- !app_assoc. cbn [app].
-      apply pcls_range; assumption.
+    - destruct He as (Hab & Hb).
+      destruct (Hnext b Hb) as (d & s' & E & Hd & Hamp).
+      rewrite vf_app. rewrite vf_app. change (vf [45%N]) with [45%N]. rewrite <- !app_assoc. cbn [app].
+      apply pcls_range; [exact Hab| |exact Hrest].
+      rewrite E. exact Hamp.
   Qed.
 End CCParse.
 
@@ -451,35 +463,12 @@ Proof.
   destruct (N.ltb_spec y 55296); unfold cp in *; lia.
 Qed.
 
-(* the last three members of a long chain ending in a small code point *)
-Lemma chain_last3 : forall l x z, chain_from (pos x) l -> Forall scalar (x :: l) ->
-  (2 <= length l)%nat -> last (x :: l) 0 = z -> z < 55296 -> 2 <= z ->
-  In (z - 1) (x :: l) /\ In (z - 2) (x :: l).
-Proof.
-  induction l as [|v l IH]; intros x z Hc Hs Hlen Hlast Hz Hz2; [cbn [length] in Hlen; lia|].
-  destruct l as [|w l]; [cbn [length] in Hlen; lia|].
-  destruct l as [|w2 l].
-  - cbn [last] in Hlast. subst w. cbn [chain_from] in Hc. destruct Hc as (Hv & Hw & _).
-    inversion Hs as [|? ? Hx Hs1]; subst. inversion Hs1 as [|? ? Hvs Hs2]; subst.
-    inversion Hs2 as [|? ? Hws _]; subst.
-    assert (Ew : pos z = z) by (unfold codepoint_position; destruct (N.ltb_spec z 55296); lia).
-    assert (Ev : v = z - 1) by (apply pos_small; [exact Hvs|lia|lia]).
-    assert (Epv : pos v = z - 1) by lia.
-    assert (Ex : x = z - 2) by (apply pos_small; [exact Hx|lia|lia]).
-    subst. cbn [In]. auto.
-  - assert (Hl : last (x :: v :: w :: w2 :: l) 0 = last (v :: w :: w2 :: l) 0) by reflexivity.
-    rewrite Hl in Hlast. cbn [chain_from] in Hc. destruct Hc as (_ & Hc).
-    inversion Hs as [|? ? _ Hs1]; subst.
-    destruct (IH v _ Hc Hs1 ltac:(cbn [length]; lia) eq_refl Hz Hz2) as [H1 H2].
-    split; right; assumption.
-Qed.
-
 (* ---------- the entries of a well-formed class are accepted ---------- *)
 Fixpoint ent_sorted (lo : N) (es : list centry) : Prop :=
   match es with
   | [] => True
   | CS x :: es' => lo <= x /\ ent_sorted (x + 1) es'
-  | CR a b :: es' => lo <= a /\ a < b /\ b <> 38 /\ b <> 126 /\ ent_sorted (b + 1) es'
+  | CR a b :: es' => lo <= a /\ a < b /\ ent_sorted (b + 1) es'
   end.
 
 Lemma ent_sorted_first : forall lo e es, ent_sorted lo (e :: es) -> lo <= entry_first e.
@@ -491,19 +480,17 @@ Proof.
   destruct e as [x|a b]; cbn [ent_sorted entries_ok] in *.
   - destruct H as [_ H]. split; [|eapply IH; exact H].
     destruct es as [|e' es']; [exact I|]. apply ent_sorted_first in H. unfold cp in *; lia.
-  - destruct H as (_ & Hab & H38 & H126 & H). split; [|eapply IH; exact H].
-    repeat split; try assumption. lia.
+  - destruct H as (_ & Hab & H). split; [|eapply IH; exact H].
+    split; [lia|].
+    destruct es as [|e' es']; [exact I|]. apply ent_sorted_first in H. unfold cp in *; lia.
 Qed.
 
-Definition good_last (r : list cp) : Prop :=
-  (3 <= length r)%nat -> last r 0 <> 38 /\ last r 0 <> 126.
-
 Lemma run_entries_sorted : forall r L ES lo,
-  r <> [] -> good_last r -> incr_from lo (r ++ L) ->
+  r <> [] -> incr_from lo (r ++ L) ->
   (incr_from (last r 0 + 1) L -> ent_sorted (last r 0 + 1) ES) ->
   ent_sorted lo (run_entries r ++ ES).
 Proof.
-  intros r L ES lo Hne Hgl Hinc HES. unfold run_entries.
+  intros r L ES lo Hne Hinc HES. unfold run_entries.
   destruct r as [|x r]; [congruence|].
   destruct r as [|y r].
   - cbn [length Nat.leb map app ent_sorted]. cbn [app incr_from last] in *. tauto.
@@ -520,40 +507,17 @@ Proof.
       cbn [incr_from] in Hinc. destruct Hinc as [Hlo Hinc].
       rewrite Emid, <- app_assoc in Hinc. cbn [app] in Hinc.
       apply incr_from_skip in Hinc. destruct Hinc as [Hxb HL].
-      destruct (Hgl ltac:(cbn [length]; lia)) as [H38 H126].
-      rewrite Elast in H38, H126. repeat split; auto. unfold cp in *. lia.
+      repeat split; auto. unfold cp in *. lia.
 Qed.
 
 Lemma runs_entries_sorted : forall runs lo,
-  Forall (fun r => r <> []) runs -> Forall good_last runs ->
+  Forall (fun r => r <> []) runs ->
   incr_from lo (concat runs) -> ent_sorted lo (flat_map run_entries runs).
 Proof.
-  induction runs as [|r runs IH]; intros lo Hne Hgl Hinc; [exact I|].
-  inversion Hne; subst. inversion Hgl; subst.
+  induction runs as [|r runs IH]; intros lo Hne Hinc; [exact I|].
+  inversion Hne; subst.
   cbn [flat_map concat] in *.
   eapply run_entries_sorted; eauto.
-Qed.
-
-Lemma chain_good_last : forall gap cs r, wf_cc gap cs -> In r (cc_runs cs) -> good_last r.
-Proof.
-  intros gap cs r (Hlen & Hsc & Hinc & Hamp & Htil & _) Hin Hr3.
-  assert (Hcs : cs <> []) by (destruct cs; [cbn [length] in Hlen; lia|discriminate]).
-  destruct (cc_runs_spec cs Hcs) as (Hcat & Hch & _).
-  rewrite Forall_forall in Hch. specialize (Hch r Hin).
-  assert (Hsub : forall z, In z r -> In z cs).
-  { intros z Hz. rewrite <- Hcat. apply in_concat. eauto. }
-  assert (Hscr : Forall scalar r).
-  { apply Forall_forall. intros z Hz. rewrite Forall_forall in Hsc. auto. }
-  destruct r as [|x l]; [cbn [length] in Hr3; lia|].
-  cbn [is_chain] in Hch. cbn [length] in Hr3.
-  assert (Hlast : In (last (x :: l) 0) (x :: l)).
-  { destruct (exists_last (l := x :: l) ltac:(discriminate)) as (m & b & E).
-    rewrite E, last_last. apply in_or_app. right. left. reflexivity. }
-  split; intros E.
-  - destruct (chain_last3 l x 38 Hch Hscr ltac:(lia) E ltac:(lia) ltac:(lia)) as [H1 H2].
-    apply Hamp. rewrite E in Hlast. repeat split; apply Hsub; assumption.
-  - destruct (chain_last3 l x 126 Hch Hscr ltac:(lia) E ltac:(lia) ltac:(lia)) as [H1 H2].
-    apply Htil. rewrite E in Hlast. repeat split; apply Hsub; assumption.
 Qed.
 
 Lemma cc_entries_ok : forall gap cs, wf_cc gap cs -> entries_ok (cc_entries cs) /\ cc_entries cs <> [].
@@ -564,10 +528,9 @@ Proof.
   split.
   - destruct cs as [|x l]; [congruence|].
     apply (ent_sorted_ok _ 0). unfold cc_entries.
-    apply runs_entries_sorted; [exact Hne| |].
-    + apply Forall_forall. intros r Hr. eapply chain_good_last; eauto.
-    + rewrite Hcat. apply incr_cons in Hinc. cbn [incr_from]. split; [|exact Hinc].
-      unfold cp in *. lia.
+    apply runs_entries_sorted; [exact Hne|].
+    rewrite Hcat. apply incr_cons in Hinc. cbn [incr_from]. split; [|exact Hinc].
+    unfold cp in *. lia.
   - unfold cc_entries. destruct (cc_runs cs) as [|r runs]; [discriminate Hcat || (cbn in Hcat; congruence)|].
     inversion Hne; subst. cbn [flat_map]. unfold run_entries.
     destruct r as [|x r]; [congruence|]. destruct (Nat.leb (length (x :: r)) 2); discriminate.
